@@ -76,3 +76,19 @@ package level
 //@   ensures err == nil ==> bswf(b) && b.bits == bits                                [@wf]
 //@   ensures b.length == old(b.length) && b.data == old(b.data)                      [@frame]
 //@   modifies b.mask, b.bits, b.valuesPerLong                                        [@frame]
+
+// Wire form: VarInt(len(data)) followed by each long big-endian.
+//@ func (*BitStorage).ReadFrom(b; r) (n, err)
+//@   let s = stream(r)
+//@   let p0 = old(Spos(s))
+//@   let k = leb32_run(Sinrow(s), p0)
+//@   let cnt = int(int32(leb32_val(Sinrow(s), p0, k)))
+//@   loop 0: modifies b.data[:], stream(r)
+//@   loop 0: invariant -1 <= rangeindex && rangeindex < len(b.data) || (rangeindex == -1 && len(b.data) == 0)
+//@   loop 0: invariant n == k + 8*(rangeindex+1) && Spos(s) == p0 + n && !Sfail(s)
+//@   loop 0: invariant all(j, 0, rangeindex+1, b.data[j] == be64(Sinrow(s), p0 + k + 8*j))
+//@   ensures err == nil ==> cnt >= 0 && len(b.data) == cnt && n == k + 8*cnt && Spos(s) == p0 + n      [@count @consume]
+//@   ensures err == nil ==> all(j, 0, cnt, b.data[j] == be64(Sinrow(s), p0 + k + 8*j))                 [@value @filled]
+//@   ensures Sfail(s) ==> err != nil                                                 [@errprop]
+//@   ensures !Sfail(s) && (k > 5 || cnt < 0) ==> err != nil                          [@value]
+//@   modifies b.data, b.data[0:cap(b.data)], stream(r)                               [@frame]
